@@ -320,6 +320,8 @@ fn nearly_special<T: Tier + Dom<M = Sh>>(rep: &mut Report) {
                 3 => std::array::from_fn(|j| c(p[j].f() * (1.0 + d * (j + 1) as f64))),
                 _ => [off[0], h[1], h[2], h[3]],
             };
+            // every second variant of the first three shapes: p nearly real as well (two small rotations composed)
+            let p: Q4<T> = if shape < 2 && (i % ds.len()) % 2 == 1 { [c(1.5), c(-d * h[2].f() / 8.0), c(d * h[3].f() / 8.0), c(d * h[1].f() / 16.0)] } else { p };
             ctx.describe(|| format!("shape {} variant {}: p={:?} q={:?} (w,x,y,z)", ["one", "real", "zero", "equal", "pure"][shape], i % ds.len(), p, q));
             ctx.out(&i);
             let (cp, cq, mp, mq) = (mk_q(p), mk_q(q), lq::<T>(p), lq::<T>(q));
